@@ -36,6 +36,8 @@ type ScriptSession struct {
 	Quiet    bool                             // while true calls are not logged/counted (probes)
 	QuietLog []string                         // methods called while Quiet
 	Hook     func(m string, args interface{}) // optional, called under no lock after logging
+	// EchoFetch: Fetch answers with one message carrying every requested body section (2 octets each)
+	EchoFetch bool
 }
 
 var errScripted = &imap.Error{Type: imap.StatusResponseTypeNo, Text: "scripted failure"}
@@ -155,7 +157,20 @@ func (s *ScriptSession) Search(kind imapserver.NumKind, criteria *imap.SearchCri
 	return &imap.SearchData{All: imap.SeqSet{}}, nil
 }
 func (s *ScriptSession) Fetch(w *imapserver.FetchWriter, numSet imap.NumSet, options *imap.FetchOptions) error {
-	return s.call("Fetch", []interface{}{numSet, options})
+	if err := s.call("Fetch", []interface{}{numSet, options}); err != nil {
+		return err
+	}
+	if s.EchoFetch && options != nil {
+		// answer with the requested body sections: the server echoes each section specification
+		m := w.CreateMessage(1)
+		for _, sec := range options.BodySection {
+			wc := m.WriteBodySection(sec, 2)
+			wc.Write([]byte("ok"))
+			wc.Close()
+		}
+		return m.Close()
+	}
+	return nil
 }
 func (s *ScriptSession) Store(w *imapserver.FetchWriter, numSet imap.NumSet, flags *imap.StoreFlags, options *imap.StoreOptions) error {
 	return s.call("Store", []interface{}{numSet, flags, options})
